@@ -117,16 +117,17 @@ def real_tokens(src):
         k.a, k.b = a, b
         prev_end = b
         k.line = t.start[0]
-        if at_stmt_start or stmt_line is None:
+        is_comment = t.type == xtok.COMMENT
+        if (at_stmt_start or stmt_line is None) and not is_comment:
             stmt_line = t.start[0]
-        k.sline = stmt_line
+        k.sline = t.start[0] if (is_comment and at_stmt_start) else stmt_line
         k.i = len(out)
         k.brk = tuple(brk)
         k.fdepth = fdepth
-        k.first = at_stmt_start
+        k.first = at_stmt_start and not is_comment
         k.cmdpos = cmdpos
         macro = None
-        if block_macro_level or header_body:
+        if block_macro_level or header_body or (pending_block == "await-indent" and is_comment):
             macro = "block"
         elif func_macro_depth:
             macro = "func"
@@ -165,9 +166,9 @@ def real_tokens(src):
                 alias_head_first = bool(glued and p.type == xtok.NAME and p.first and p.string not in LINE_START_PY)
         if pending_block == "header" and t.type == xtok.OP and s == ":" and not brk:
             header_body = True
-        at_stmt_start = False
-        if t.type == xtok.COMMENT:
+        if is_comment:
             continue
+        at_stmt_start = False
         if (t.type == xtok.OP and (s in ("&&", "||", "|", ";", "&") or s in CAPTURE_OPENERS)) or \
                 (t.type == xtok.NAME and s in ("and", "or")) or (t.type == xtok.DOLLARNAME and len(out) >= 1 and _is_env_prefix(src, k)):
             cmdpos = True
@@ -334,6 +335,8 @@ def context_of(tok, other, sub_lines):
     xtok = _mods()
     if tok is None:
         return "python"
+    if tok.macro == "block" or (other is not None and other.macro == "block"):
+        return "macro-block"
     if tok.macro:
         return "macro-" + tok.macro
     if tok.fdepth and tok.type != xtok.FSTRING_START:
